@@ -304,6 +304,22 @@ func runCheck(id, tier string) int {
 				}
 				fmt.Printf("  counterexample for %s not reproduced natively: %s\n", aid, out.summary())
 			}
+			if !confirmed && j.Confirm != "" && scheduleDependent(aid) {
+				// the model alone does not force the schedule on the real runtime: amplified native confirmation
+				for try := 0; try < 5 && !confirmed; try++ {
+					cj := *j
+					cj.Entry = j.Confirm
+					out := rp.run(&cj, map[string]string{})
+					replays++
+					if confirms(out, aid) {
+						confirmed = true
+						if isKnown(aid) == nil && len(vs) > 0 && vs[0].Model != nil {
+							cexPath = writeCex(&cj, aid, vs[0].Model)
+						}
+						fmt.Printf("  %s: reproduced on the real runtime by the amplified scenario %s (try %d)\n", aid, j.Confirm, try+1)
+					}
+				}
+			}
 			if !confirmed {
 				spurious++
 				fmt.Printf("  SPURIOUS %s: %d solver counterexample(s), none reproduced on the real build (%d tried)\n", aid, len(vs), tried)
@@ -451,4 +467,9 @@ func readableModel(m map[string]string) map[string]string {
 		}
 	}
 	return out
+}
+
+// scheduleDependent: assertion ids whose counterexamples depend on the goroutine schedule, not only on the input.
+func scheduleDependent(aid string) bool {
+	return strings.Contains(aid, "noleak") || strings.HasPrefix(aid, "deadlock@") || strings.Contains(aid, "ctxerr")
 }
